@@ -63,6 +63,12 @@ func runC06(r *core.Run) {
 								}
 								c := ewCase{kind: "arith", op: op, form: form, mode: "safe", api: api, d: d, shape: shape, layA: la, layB: la, vs: vs, strict: true}
 								ewRunCase(r, "C06", c, nil)
+								if (form == "TSt" || form == "StT") && vs == "id" && (la == "C" || la == "S") && len(shape) >= 1 {
+									// the scalar tensor as a one-element view with a wider storage window
+									cw := c
+									cw.wide = true
+									ewRunCase(r, "C06", cw, nil)
+								}
 								// special scalars against the edge operands (Pow, Mul, Div, Mod: where kernels shortcut on the scalar)
 								if vs == "edge" && api == "func" && (form == "TS" || form == "ST") && (op == "Pow" || op == "Mul" || op == "Div" || op == "Mod") && len(shape) <= 2 {
 									for k := range specialScalars(d) {
